@@ -10,6 +10,7 @@ import (
 	"bytes"
 	"crypto/tls"
 	"fmt"
+	"github.com/kubewharf/kubegateway/pkg/zzverif/vsched"
 	"sort"
 	"strings"
 
@@ -21,6 +22,7 @@ import (
 
 	"verifh/ctlrig"
 	"verifh/ev"
+	"verifh/xa"
 	"verifh/xstate"
 )
 
@@ -387,6 +389,68 @@ func (s *sys) checkTLS(res map[string]*clusters.ClusterInfo) error {
 	return nil
 }
 
+// ------------------------------------------------------------------ engine A: a lookup racing an update of the names
+// "At every moment each name resolves ...": while an update changes a cluster's server-name list, the names it KEEPS
+// (its own name, the aliases present before and after) must resolve to it at every point of the update - every
+// interleaving of the name-table operations of the update with the lookups of a request and of a TLS handshake.
+
+type obsNames struct {
+	missing []string
+}
+
+func harnessNames(c *ev.Check, kind string, bound int) xa.Harness {
+	name := "lookup-vs-" + kind
+	body := func() interface{} {
+		var ctl *ctlrig.Rig
+		from, to := verByID(versions, "a[x,y]"), verByID(versions, "a[x]")
+		switch kind {
+		case "alias-added":
+			from, to = verByID(versions, "a[x]"), verByID(versions, "a[x,y]")
+		case "alias-replaced":
+			from, to = verByID(versions, "a[x,y]"), verByID(versions, "a[X]") // y dropped, x kept (other spelling)
+		}
+		vsched.Passthrough(func() {
+			ctl = ctlrig.New()
+			if _, err := ctl.Apply(from.object()); err != nil {
+				panic(err)
+			}
+		})
+		o := &obsNames{}
+		get := ctl.C.WrapGetConfigForClient(func(*tls.ClientHelloInfo) (*tls.Config, error) { return baseCfg, nil })
+		vsched.GoNamed("update", func() {
+			obj := to.object()
+			vsched.Passthrough(func() { ctl.Store(obj) })
+			_, _ = ctl.Redeliver(obj)
+		})
+		vsched.GoNamed("lookups", func() {
+			for _, h := range []string{"a", "x", "a"} {
+				if ci, ok := ctl.C.Get(h); !ok || ci == nil || ci.Cluster != "a" {
+					o.missing = append(o.missing, "request for host "+h)
+				}
+			}
+			if cfg, err := get(&tls.ClientHelloInfo{ServerName: "x"}); err != nil || cfg == baseCfg {
+				o.missing = append(o.missing, "TLS handshake with SNI x")
+			}
+		})
+		vsched.Join()
+		vsched.Passthrough(func() { ctl.Close() })
+		return o
+	}
+	check := func(x *vsched.Exec) error {
+		o := x.Obs.(*obsNames)
+		c.Outcome("name_race_outcomes", fmt.Sprint(name, len(o.missing)))
+		if len(o.missing) > 0 {
+			return fmt.Errorf("kept-name-vanishes-during-update: while cluster a's server names were being updated (%s), a name it keeps did not resolve to it: %v", kind, o.missing)
+		}
+		return nil
+	}
+	return xa.Harness{Name: name, Bound: bound, Shards: 1, Horizon: 20000, Body: body, Check: check}
+}
+
+func harnessesNames(c *ev.Check, b int) []xa.Harness {
+	return []xa.Harness{harnessNames(c, "alias-dropped", b), harnessNames(c, "alias-added", b), harnessNames(c, "alias-replaced", b)}
+}
+
 func main() {
 	c := ev.Start("C10", "model_checking")
 	c.Assume = []string{
@@ -397,7 +461,15 @@ func main() {
 	if c.ReplayFile() != "" {
 		xstate.ReplayIfAsked(c, []xstate.Spec{spec(), specOver("tls-shapes", tlsVersions)})
 	}
+	if c.ReplayFile() != "" {
+		xa.ReplayIfAsked(c, harnessesNames(c, 0))
+	}
 	tasks := xstate.Tasks(c, spec(), c.Pick(6, 8), 16)
+	for _, b := range []int{0, 1, 2, c.Pick(2, 3)} {
+		for _, h := range harnessesNames(c, b) {
+			tasks = append(tasks, xa.Tasks(c, h)...)
+		}
+	}
 	tasks = append(tasks, xstate.Tasks(c, specOver("tls-shapes", tlsVersions), c.Pick(5, 7), 12)...)
 	c.RunTasks(tasks)
 	c.Finish(map[string]interface{}{
